@@ -37,7 +37,7 @@ TYPE_REASONS = ('-for-', 'nonnumber', 'fraction-for', 'nonbool', 'nonstring', 'n
 
 
 def shards(tier, seed):
-    return [{'idx': i, 'n': N_EXAMPLES[tier]} for i in range(15)] + [{'idx': 'files', 'n': N_EXAMPLES[tier] // 4}]
+    return [{'idx': i, 'n': N_EXAMPLES[tier]} for i in range(15)] + [{'idx': 'files', 'n': N_EXAMPLES[tier] // 4}, {'idx': 'names', 'n': N_EXAMPLES[tier]}]
 
 
 def override_T(T, props):
@@ -695,7 +695,46 @@ def check_files(ctx, case):
     sys.modules.pop('frappy_vfgen', None)
 
 
+NAME_FIXED = ['m', 'M0', 'a_b', 'a' * 63, 'a' * 64, '', '1a', '_a', 'a b', 'a-b', 'a.b', 'a:b', 'abc\n', '\nabc', 'abc ', 'ä', 'aä', 'a\x00', 'a\r', 'a\u2028']
+
+
+def check_name(ctx, case):
+    """module names in a configuration: letters, digits and underscores, starting with a letter, at most 63 characters - anything
+    else (it would end up in every specifier on the wire) is a configuration error"""
+    import re
+    from frappy.config import Mod
+    from frappy.errors import ConfigError
+    name = case.get('name')
+    if not isinstance(name, str):
+        return
+    ctx.ev()
+    legal = re.fullmatch(r'[a-zA-Z][a-zA-Z0-9_]{0,62}', name) is not None
+    try:
+        Mod(name, 'frappy.modules.Readable', 'a module')
+        accepted = True
+    except ConfigError:
+        accepted = False
+    except Exception as e:   # noqa
+        ctx.finding(f'module-name:raises:{type(e).__name__}', case, repr(e)[:200])
+        return
+    if accepted and not legal:
+        what = 'white-space' if any(c.isspace() for c in name) else 'other'
+        ctx.finding(f'module-name:illegal-name-accepted:{what}', case, repr(name))
+    elif legal and not accepted:
+        ctx.finding('module-name:legal-name-refused', case, repr(name))
+    else:
+        ctx.ok('module-name')
+    if not legal:
+        ctx.nt(('name', name))
+
+
 def run_shard(ctx, shard):
+    if shard['idx'] == 'names':
+        for name in NAME_FIXED:
+            check_name(ctx, {'kind': 'name', 'name': name})
+        drive(st.builds(lambda n: {'kind': 'name', 'name': n}, st.text('aZ_9 \n\t-.:ä\r', max_size=8)), lambda case: check_name(ctx, case),
+              shard['n'], ctx.seed * 1000 + 98)
+        return
     if shard['idx'] == 'files':
         drive(files_case(), lambda case: check_files(ctx, case), shard['n'], ctx.seed * 1000 + 99)
         return
@@ -705,6 +744,8 @@ def run_shard(ctx, shard):
 def run_case(ctx, case):
     if case['kind'] == 'files':
         check_files(ctx, case)
+    elif case['kind'] == 'name':
+        check_name(ctx, case)
     else:
         if case.get('cfg', {}).get('description') == '':
             return      # (shrinker artefact: an empty description is left out of the description of the node)
